@@ -31,6 +31,8 @@ func rootsOf(v ssa.Value) []ssa.Value {
 			v = x.X
 		case *ssa.ChangeType:
 			v = x.X
+		case *ssa.Slice:
+			v = x.X // s[:0] is the same backing array
 		case *ssa.UnOp:
 			u := unspill(x)
 			if u == ssa.Value(x) {
@@ -141,6 +143,81 @@ func checkUseAfterRelease(w *World, r *Report) {
 				return
 			}
 			if _, isDefer := in.(*ssa.Defer); isDefer {
+				// a deferred release runs when the function returns: nothing the function hands
+				// back may live in the released object
+				v, how := rf.releasedArg(c)
+				if v == nil {
+					return
+				}
+				if cst, isC := v.(*ssa.Const); isC && cst.Value == nil {
+					return
+				}
+				nSites++
+				alias := map[ssa.Value]bool{}
+				for _, rt := range rootsOf(v) {
+					alias[rt] = true
+				}
+				for changed := true; changed; {
+					changed = false
+					instrsOf(fn, func(x ssa.Instruction) {
+						val, ok := x.(ssa.Value)
+						if !ok || alias[val] {
+							return
+						}
+						switch y := x.(type) {
+						case *ssa.Slice:
+							if alias[y.X] {
+								alias[val], changed = true, true
+							}
+						case *ssa.MakeInterface:
+							if alias[y.X] {
+								alias[val], changed = true, true
+							}
+						case *ssa.ChangeType:
+							if alias[y.X] {
+								alias[val], changed = true, true
+							}
+						case *ssa.Phi:
+							for _, e := range y.Edges {
+								if alias[e] {
+									alias[val], changed = true, true
+								}
+							}
+						case *ssa.UnOp:
+							if y.Op == token.MUL && alias[unspill(y)] && unspill(y) != ssa.Value(y) {
+								alias[val], changed = true, true
+							}
+							// result slots (go/ssa spills results of functions with defers)
+							if al, ok := y.X.(*ssa.Alloc); ok && y.Op == token.MUL && al.Referrers() != nil {
+								for _, ref := range *al.Referrers() {
+									if st, ok := ref.(*ssa.Store); ok && st.Addr == ssa.Value(al) && alias[st.Val] {
+										alias[val], changed = true, true
+									}
+								}
+							}
+						case *ssa.Call:
+							if b, ok := y.Call.Value.(*ssa.Builtin); ok && b.Name() == "append" && alias[y.Call.Args[0]] {
+								alias[val], changed = true, true
+							}
+						}
+					})
+				}
+				bad := ""
+				instrsOf(fn, func(x ssa.Instruction) {
+					if ret, ok := x.(*ssa.Return); ok && bad == "" {
+						for _, res := range ret.Results {
+							if alias[res] {
+								bad = w.posOf(ret.Pos())
+							}
+						}
+					}
+				})
+				construct := "value released by a deferred " + how + " is not handed back"
+				if bad != "" {
+					r.bad("R01.5", ssaName(fn), construct, w.posOf(in.Pos()), "the function returns (at "+bad+") the very object — or a slice / interface value over it — that its deferred release puts back into the pool: the caller goes on using memory that the pool hands to the next taker, whose writes then show through")
+				} else {
+					r.ok("R01.5", ssaName(fn), construct, w.posOf(in.Pos()), "no result of the function aliases the released object", true)
+				}
 				return
 			}
 			if _, isGo := in.(*ssa.Go); isGo {
